@@ -8,32 +8,15 @@ import Isotp.PyAgree.Threaded
 namespace Isotp.PyAgree.Thr
 open Isotp Isotp.Py
 
-/-! ## 1. `TransportLayer.process` / `TransportLayer.reset`
-
-  NOT IN THE DUMP: `harness/py2lean.py` does not list these two methods (checked 2026-10-01: `Src.lean` has no
-  `TransportLayer_process` / `TransportLayer_reset`).  The two definitions below are, character for character, what `py2lean.block`
-  returns for the bodies of `TransportLayer.process` / `.reset` of /repo as they are now (obtained by running the dumper's own
-  `block` on the two `ast.FunctionDef`s).  They are a TRANSCRIPT, not the generated file: the tie to the source is only as good as this
-  copy until the dumper lists the two methods (then: `Src.TransportLayer_process = processSrc := rfl`). -/
-
-/-- `if self.started: raise RuntimeError(...)`; `return super().process(rx_timeout=rx_timeout, do_rx=do_rx, do_tx=do_tx)` -/
-def processSrc : PBlock :=
-    (.cons (.ite (.var "self.started") (.cons (.raise "RuntimeError")
-    .nil) .nil)
-    (.cons (.ret (.call "super().process#rx_timeout#do_rx#do_tx" (.cons (.var "rx_timeout") (.cons (.var "do_rx") (.cons (.var "do_tx") .nil)))))
-    .nil))
-
-/-- `if self.started: raise RuntimeError(...)`; `super().reset()` -/
-def resetSrc : PBlock :=
-    (.cons (.ite (.var "self.started") (.cons (.raise "RuntimeError")
-    .nil) .nil)
-    (.cons (.expr (.call "super().reset" .nil))
-    .nil))
+/-! ## 1. `TransportLayer.process` / `TransportLayer.reset` (the guards), on the dumped `Src.TransportLayer_process` /
+  `Src.TransportLayer_reset`:
+  `if self.started: raise RuntimeError(...)`; `return super().process(rx_timeout=rx_timeout, do_rx=do_rx, do_tx=do_tx)`   resp.
+  `if self.started: raise RuntimeError(...)`; `super().reset()` -/
 
 /-- **`process`, refusal**: on a started layer, `RuntimeError` at the first statement, whatever the callees are -/
 theorem process_refuses (M : Meths) (env : Env) (h : env "self.started" = some (pbool true)) :
-    runFn M env processSrc = .error (.exc .RuntimeError) := by
-  unfold runFn processSrc
+    runFn M env Src.TransportLayer_process = .error (.exc .RuntimeError) := by
+  unfold runFn Src.TransportLayer_process
   simp only [execBlock, exec_guard M env true h, if_true, error_bind]
 
 /-- **`process`, accepted**: on a layer that is not started the call is `super().process(...)` with exactly the three arguments it was
@@ -42,7 +25,7 @@ theorem process_refuses (M : Meths) (env : Env) (h : env "self.started" = some (
     `process_whole_agrees` (LayerWhole.lean); here: nothing else happens. -/
 theorem process_hands_over (M : Meths) (env : Env) (v1 v2 v3 : PV) (h : env "self.started" = some (pbool false))
     (h1 : env "rx_timeout" = some v1) (h2 : env "do_rx" = some v2) (h3 : env "do_tx" = some v3) :
-    runFn M env processSrc =
+    runFn M env Src.TransportLayer_process =
       match M.fn "super().process#rx_timeout#do_rx#do_tx" [v1, v2, v3] env with
       | .ok v => .ok (v, env)
       | .error e => .error e := by
@@ -60,7 +43,7 @@ theorem process_hands_over (M : Meths) (env : Env) (v1 v2 v3 : PV) (h : env "sel
       | .error e => .error e := by
     simp only [execStmt, hcall]
     cases M.fn "super().process#rx_timeout#do_rx#do_tx" [v1, v2, v3] env <;> rfl
-  unfold runFn processSrc
+  unfold runFn Src.TransportLayer_process
   simp only [execBlock, hg, ok_bind, hr]
   cases M.fn "super().process#rx_timeout#do_rx#do_tx" [v1, v2, v3] env <;> rfl
 
@@ -70,9 +53,9 @@ theorem process_hands_over (M : Meths) (env : Env) (v1 v2 v3 : PV) (h : env "sel
 theorem process_agrees (M : Meths) (R : Env → State → Prop) (env : Env) (t : TL) (h : Shows R env t) (doRx doTx : Bool) (v1 : PV)
     (h1 : env "rx_timeout" = some v1) (h2 : env "do_rx" = some (pbool doRx)) (h3 : env "do_tx" = some (pbool doTx)) :
     (t.started = true →
-      runFn M env processSrc = .error (.exc .RuntimeError) ∧ TL.process t doRx doTx = (t, some .RuntimeError)) ∧
+      runFn M env Src.TransportLayer_process = .error (.exc .RuntimeError) ∧ TL.process t doRx doTx = (t, some .RuntimeError)) ∧
     (t.started = false →
-      (runFn M env processSrc =
+      (runFn M env Src.TransportLayer_process =
         match M.fn "super().process#rx_timeout#do_rx#do_tx" [v1, pbool doRx, pbool doTx] env with
         | .ok v => .ok (v, env)
         | .error e => .error e) ∧
@@ -89,7 +72,7 @@ theorem process_agrees (M : Meths) (R : Env → State → Prop) (env : Env) (t :
 theorem process_raises_iff (M : Meths) (R : Env → State → Prop) (env : Env) (t : TL) (h : Shows R env t) (v1 v2 v3 : PV)
     (h1 : env "rx_timeout" = some v1) (h2 : env "do_rx" = some v2) (h3 : env "do_tx" = some v3)
     (hcallee : M.fn "super().process#rx_timeout#do_rx#do_tx" [v1, v2, v3] env ≠ .error (.exc .RuntimeError)) :
-    runFn M env processSrc = .error (.exc .RuntimeError) ↔ t.started = true := by
+    runFn M env Src.TransportLayer_process = .error (.exc .RuntimeError) ↔ t.started = true := by
   cases hs : t.started with
   | true => exact ⟨fun _ => rfl, fun _ => process_refuses M env (hs ▸ h.1.started)⟩
   | false =>
@@ -103,16 +86,16 @@ theorem process_raises_iff (M : Meths) (R : Env → State → Prop) (env : Env) 
 
 /-- **`reset`, refusal** -/
 theorem reset_refuses (M : Meths) (env : Env) (h : env "self.started" = some (pbool true)) :
-    runFn M env resetSrc = .error (.exc .RuntimeError) := by
-  unfold runFn resetSrc
+    runFn M env Src.TransportLayer_reset = .error (.exc .RuntimeError) := by
+  unfold runFn Src.TransportLayer_reset
   simp only [execBlock, exec_guard M env true h, if_true, error_bind]
 
 /-- **`reset`** against `TL.reset`: `RuntimeError` exactly when the model says so; otherwise the run ends normally in an environment that
     shows `(TL.reset t).1` (the logic layer reset through `super().reset()`, everything else untouched). -/
 theorem reset_agrees {M : Meths} {R : Env → State → Prop} (hM : Spec M R) (env : Env) (t : TL) (h : Shows R env t) :
     match (TL.reset t).2 with
-    | some e => runFn M env resetSrc = .error (.exc e)
-    | none => ∃ env', runFn M env resetSrc = .ok (pnone, env') ∧ Shows R env' (TL.reset t).1 ∧ ∀ k ∈ passiveKeys, env' k = env k := by
+    | some e => runFn M env Src.TransportLayer_reset = .error (.exc e)
+    | none => ∃ env', runFn M env Src.TransportLayer_reset = .ok (pnone, env') ∧ Shows R env' (TL.reset t).1 ∧ ∀ k ∈ passiveKeys, env' k = env k := by
   cases hs : t.started with
   | true =>
     have : (TL.reset t).2 = some .RuntimeError := by simp [TL.reset, hs]
@@ -124,8 +107,8 @@ theorem reset_agrees {M : Meths} {R : Env → State → Prop} (hM : Spec M R) (e
     have h0 := St.init h
     obtain ⟨e1, x1, r1, f1⟩ := hM.superReset env t.core h0.c
     have h1 := h0.congr e1 _ f1 r1
-    have hrun : Run M env resetSrc (fun e => e = e1) := by
-      unfold resetSrc
+    have hrun : Run M env Src.TransportLayer_reset (fun e => e = e1) := by
+      unfold Src.TransportLayer_reset
       refine Run.cons (by rw [exec_guard M env false (hs ▸ h0.w.started)]; rfl) ?_
       refine Run.cons (exec_proc0 M env e1 _ (by decide) x1) ?_
       exact Run.nil rfl
@@ -134,8 +117,8 @@ theorem reset_agrees {M : Meths} {R : Env → State → Prop} (hM : Spec M R) (e
 
 /-- `reset` raises `RuntimeError` iff the layer is started, and fails in no other way -/
 theorem reset_raises_iff {M : Meths} {R : Env → State → Prop} (hM : Spec M R) (env : Env) (t : TL) (h : Shows R env t) :
-    (runFn M env resetSrc = .error (.exc .RuntimeError) ↔ t.started = true) ∧
-    ((∃ e, runFn M env resetSrc = .error e) ↔ t.started = true) := by
+    (runFn M env Src.TransportLayer_reset = .error (.exc .RuntimeError) ↔ t.started = true) ∧
+    ((∃ e, runFn M env Src.TransportLayer_reset = .error e) ↔ t.started = true) := by
   have := reset_agrees hM env t h
   cases hs : t.started with
   | true =>
